@@ -219,6 +219,20 @@ Theorem C16_formatted_roundtrip_enum : forall v f w es e n,
 Proof. exact formatted_roundtrip_enum. Qed.
 Print Assumptions C16_formatted_roundtrip_enum.
 
+(* ... wherever the named enum sits among the others of the enum_set (class names distinct): the
+   enum a format denotes is the first one with exactly that name, for both directions *)
+Theorem C16_formatted_roundtrip_enum_any_order : forall v f w es n e s,
+  format_parse f = Some (101, w) -> enum_name f = Some n ->
+  enum_set_distinct es -> In (n, e) es -> enum_names_distinct e ->
+  val_to_formatted_str v f es = Ok s -> formatted_str_to_val s f es = Ok v.
+Proof. exact formatted_roundtrip_enum_any_order. Qed.
+Print Assumptions C16_formatted_roundtrip_enum_any_order.
+
+Theorem C16_enum_lookup_is_first_exact_name : forall n es e, find_enum n es = Some e ->
+  exists es1 es2, es = es1 ++ (n, e) :: es2 /\ (forall n' e', In (n', e') es1 -> n' <> n).
+Proof. exact find_enum_spec. Qed.
+Print Assumptions C16_enum_lookup_is_first_exact_name.
+
 Theorem C16_formatted_unknown_type_rejected : forall v d f ty w es,
   format_parse f = Some (ty, w) -> ~ fmt_type_ok ty -> ty <> 101 ->
   is_ok (val_to_formatted_str v f es) = false /\ is_ok (formatted_str_to_val d f es) = false.
